@@ -8,7 +8,7 @@ from ..engine.cfg import CFG
 from ..engine.context import Context
 from ..engine.loader import walk_expr, walk_own
 from ..engine.resolve import _ann_types
-from ..engine.terms import show, strip_sites
+from ..engine.terms import contains, show, strip_sites
 
 PROPERTY = "C12"
 EXPLANATION = (
@@ -368,6 +368,8 @@ def run(ctx: Context) -> None:
         _g2(ctx)
     if ck.rule("C12.G3", "event path: one delivery per EVENT message, no filter, keyed by (aid, iid)"):
         _g3(ctx)
+    if ck.rule("C12.X2", "listeners are delivered from a snapshot; a malformed event body cannot raise out of the event path"):
+        _x2(ctx)
     if ck.rule("C12.X1", "listener isolation: a raising listener neither stops delivery nor propagates"):
         f = ctx.func(f"{AP}._callback_listeners")
         n = _isolation(ctx, "C12.X1", f, None, anchor=True)
@@ -1251,6 +1253,76 @@ def _isolation(ctx: Context, R: str, f, attr: str | None, anchor: bool) -> int:
 
 
 # ---------------------------------------------------------------------- thorough tier: package sweeps
+def _x2(ctx: Context) -> None:
+    """Two further ways the delivery loop / event path can raise that listener isolation does not cover."""
+    from ..engine.partial import PartialProfile
+
+    ck = ctx.ck
+    T = ctx.terms
+    R = "C12.X2"
+    # (a) the delivery loop iterates a snapshot: a listener may register or remove listeners (its own stop callback)
+    #     during delivery; iterating the live set raises RuntimeError at the loop head, outside the per-listener try
+    f = ctx.func(f"{ABS}.AbstractPairing._callback_listeners")
+    cfg = ctx.cfg(f.qualname)
+    attr = _listener_attr(ctx)
+    loops = [n for n in cfg.nodes if n.kind == "for_iter"]
+    found = 0
+    for n in loops:
+        it = strip_sites(T.of(cfg, n, n.ast.iter))
+        live = ("attr", ("param", "self"), attr) if attr else None
+        if live is None or not contains(it, lambda s: s == live):
+            continue
+        found += 1
+        # the raw AST decides whether a copy is taken (the term engine treats list()/tuple() of a set as a call already)
+        e = n.ast.iter
+        copied = (
+            isinstance(e, ast.Call)
+            and (
+                (isinstance(e.func, ast.Name) and e.func.id in ("list", "tuple", "set", "frozenset", "sorted"))
+                or (isinstance(e.func, ast.Attribute) and e.func.attr == "copy")
+            )
+        )
+        if not copied and isinstance(e, ast.Name):
+            # a local that was assigned a copy
+            du = T.du(cfg)
+            rd = du.reaching(n.id, e.id)
+            copied = bool(rd) and all(
+                d.kind == "assign" and isinstance(d.value, ast.Call) and (
+                    (isinstance(d.value.func, ast.Name) and d.value.func.id in ("list", "tuple", "set", "frozenset", "sorted"))
+                    or (isinstance(d.value.func, ast.Attribute) and d.value.func.attr == "copy"))
+                for _nid, d in rd)
+        ck.check(
+            R,
+            copied,
+            "_callback_listeners iterates a snapshot of the listener set",
+            f"{ctx.fkey(f)}:iterates-live-set",
+            "_callback_listeners iterates the live listener set: a listener that registers or removes a listener during delivery "
+            "(e.g. a one-shot listener calling its own stop callback) makes the loop raise `RuntimeError: Set changed size during "
+            "iteration` outside the per-listener try - the remaining listeners are skipped and the exception breaks the connection",
+            ctx.loc(f, n),
+        )
+    if not found:
+        ck.unknown(R, "_callback_listeners: loop over the listener collection not found", f.loc())
+    # (b) the event path with bytes.decode() of the peer's body as a raise site lets no Exception escape
+    q = f"{CONN}.HomeKitConnection.event_received"
+    prof = PartialProfile("c12-event", {q: {"decode": True}})
+    prof.prepare(ctx)
+    fl = ctx.flow_with(prof)
+    esc = sorted(e for e in fl.esc(q) if ctx.prog.is_subclass(e, "Exception") or not ctx.prog.known_class(e))
+    sites = [s for s in prof.sites if s[0] == q]
+    ck.require_min(R, "decode sites in HomeKitConnection.event_received", len(sites), 1)
+    ef = ctx.func(q)
+    ck.check(
+        R,
+        not esc,
+        f"HomeKitConnection.event_received: with body.decode() as a raise site nothing escapes ({len(sites)} decode site(s))",
+        f"{ctx.fkey(ef)}:decode-escapes",
+        f"HomeKitConnection.event_received lets {esc} escape: an EVENT whose body is not valid UTF-8 raises out of data_received and "
+        "tears the connection down instead of being ignored like any other non-JSON body",
+        ef.loc(),
+    )
+
+
 def run_thorough(ctx: Context) -> None:
     ck = ctx.ck
     prog = ctx.prog
@@ -1540,4 +1612,12 @@ VARIANTS = [
         "new": "        self.subscriptions = new_characteristics\n",
         "expect": "C12.G2",
     },
+]
+
+VARIANTS += [
+    {"name": "delivery loop iterates the live listener set (pinned defect)", "file": "aiohomekit/controller/abstract.py",
+     "old": "        for listener in list(self.listeners):", "new": "        for listener in self.listeners:", "expect": "C12.X2"},
+    {"name": "event body decoded outside the try (pinned defect)", "file": "aiohomekit/controller/ip/connection.py",
+     "old": "        try:\n            decoded = event.body.decode(\"utf-8\")\n            if not decoded:\n                return\n            parsed = hkjson.loads(decoded)",
+     "new": "        decoded = event.body.decode(\"utf-8\")\n        try:\n            if not decoded:\n                return\n            parsed = hkjson.loads(decoded)", "expect": "C12.X2"},
 ]
